@@ -128,11 +128,14 @@ def oc_band(x, g, xmin, xmax, move, maxvol, tol, l1=0.0, l2=1e5, eps=None):
     else:
         lam_hi = _sup_true(lambda lam: not (W(lam) < maxvol - eps), l1, l2)  # right of it the volume is too small
     lam_hi = max(lam_hi, lam_lo)
-    root_in_bracket = (W(-1.0) >= maxvol - eps) and (W(l2) <= maxvol + eps)
+    starved = W(-1.0) < maxvol - eps       # even lam -> 0+ gives too little volume (variables with zero gradient)
+    above = W(l2) > maxvol + eps           # the root lies above the upper end of the multiplier bracket
+    root_in_bracket = not starved and not above
     x_hi = oc_update(x, g, lam_lo - tol, lower, upper)
     x_lo = oc_update(x, g, lam_hi + tol, lower, upper)
     return {'lower': lower, 'upper': upper, 'reachable': reachable(lower, upper, maxvol, eps),
-            'root_in_bracket': bool(root_in_bracket), 'lam_lo': lam_lo, 'lam_hi': lam_hi,
+            'root_in_bracket': bool(root_in_bracket), 'root_above_bracket': bool(above),
+            'lam_lo': lam_lo, 'lam_hi': lam_hi,
             'x_lo': x_lo, 'x_hi': x_hi, 'v_lo': float(np.sum(x_lo)), 'v_hi': float(np.sum(x_hi)),
             'x_star': oc_update(x, g, 0.5 * (lam_lo + lam_hi), lower, upper), 'eps': eps,
             'free': int(np.sum((x_lo > lower) & (x_hi < upper)))}
